@@ -6,8 +6,9 @@ import (
 	"os"
 	"strconv"
 
-	_ "verif/mc/checks"
+	"verif/mc/checks"
 	"verif/mc/engine"
+	"verif/mc/univ"
 )
 
 func main() {
@@ -37,6 +38,16 @@ func main() {
 			usage()
 		}
 		os.Exit(engine.ReplayMain(os.Args[2]))
+	case "model":
+		// vcheck model '<query>' '<json input>': show implementation and model side by side
+		in := any(nil)
+		if len(os.Args) > 3 {
+			in = univ.FromJSON(os.Args[3])
+		}
+		v := checks.CompareModel(os.Args[2], in)
+		fmt.Printf("class=%s why=%s\nimpl : %s\nmodel: %s sig=%v compile=%q\n", v.Class, v.Why, v.Impl, univ.Canon(v.Model.Vals), v.Model.Sig, v.Model.CompileErr)
+	case "corpus":
+		checks.CorpusReport(len(os.Args) > 2)
 	case "list":
 		for _, id := range engine.IDs() {
 			fmt.Println(id)
